@@ -154,7 +154,11 @@ func TestVerifC11Broker(t *testing.T) {
 		{"broker_acl_deny", map[string]string{"KAFSCALE_ACL_ENABLED": "true"}, nil},
 		{"broker_meta_unavailable", nil, func(s metadata.Store) metadata.Store { return c11UnavailableStore{s} }},
 	}
+	replay := c11ReplayCase("broker")
 	for i, cfg := range configs {
+		if replay != nil && replay.Target != cfg.name {
+			continue
+		}
 		for k, v := range cfg.env {
 			t.Setenv(k, v)
 		}
@@ -169,14 +173,19 @@ func TestVerifC11Broker(t *testing.T) {
 				}
 			},
 		}
-		c11RunMatrix(r, c11Matrix{target: cfg.name, addr: addr, salt: i * 1000000, requireReply: true, scale: []float64{1, 0.4, 0.4}[i], hooks: hooks})
+		c11RunMatrix(r, c11Matrix{target: cfg.name, addr: addr, salt: i * 1000000, requireReply: true, scale: []float64{1, 0.4, 0.4}[i], hooks: hooks, replay: replay})
 		stop()
 		for k := range cfg.env {
 			t.Setenv(k, "")
 		}
 	}
-	r.Floor("advertised_pairs", 150)
-	r.Floor("replies_decoded", 1000)
-	r.Floor("replies_flexible_header", 100)
-	r.Floor("unadvertised_pairs", 300)
+	if replay == nil {
+		r.Floor("advertised_pairs", 150)
+		r.Floor("replies_decoded", 1000)
+		r.Floor("replies_flexible_header", 100)
+		r.Floor("unadvertised_pairs", 300)
+		r.Floor("content_produce_partition_ok", 20)
+		r.Floor("content_fetch_partition_with_records", 3)
+		r.Floor("content_join_group_ok", 1)
+	}
 }
